@@ -79,6 +79,8 @@ TOpen ==
              [open |-> TRUE, tainted |-> FALSE, ver |-> e.ver, community |-> e.community, user |-> e.user,
               engine |-> e.engine, boots |-> Zero, time |-> Zero,
               auth |-> e.auth, priv |-> e.priv, akt |-> e.akt, akm |-> e.akm, pkt |-> e.pkt, pkm |-> e.pkm,
+              \* the credentials the CALLER configured the session with (they may be installed later: deferred user)
+              apiuser |-> e.apiuser, apiauth |-> e.apiauth, apipriv |-> e.apipriv, synced |-> e.user = e.apiuser,
               maxbuf |-> e.maxbuf, pending |-> FALSE, op |-> "", reqid |-> Zero, msgid |-> Zero,
               it |-> [start |-> <<>>, last |-> <<>>], inbox |-> <<>>,
               salts |-> {}, lastSalt |-> <<>>, gap |-> 0,
@@ -147,6 +149,11 @@ V3HeaderOK(s, m, e) ==
                   /\ m.usm.boots = s.boots /\ m.usm.time = s.time
   /\ m.hdr.fAuth = HasAuth(s) /\ m.hdr.fPriv = HasPriv(s)          \* C09 / C14 flags
   /\ m.hdr.fReport = (e.op = "refresh")
+  \* C03 / C13: data requests go out under the user and security level the caller configured - never under the
+  \* temporary discovery identity, whatever happened during discovery
+  \* (a caller that ignores a FAILED refresh()/enter and sends anyway is outside the statement; `synced` = some refresh
+  \*  exchange of this session has completed)
+  /\ (e.op # "refresh" /\ s.synced) => (s.user = s.apiuser /\ s.auth = s.apiauth /\ s.priv = s.apipriv)
   /\ ReqIdInRange(m.hdr.msgId)
   /\ m.hdr.maxSize.neg = FALSE /\ Cmp(m.hdr.maxSize.mag, <<1, 227>>) > 0    \* msgMaxSize >= 484 (RFC 3412)
 
@@ -378,6 +385,7 @@ AfterRecv(s, r, e) ==
   ELSE LET x == Expected(s, r.a.cpdu) IN
        [s EXCEPT !.inbox = r.rest, !.pending = FALSE,
                  !.it = ItAfter(s, x, e), !.walk = WalkAfter(s, x, e),
+                 !.synced = IF s.op = "refresh" THEN TRUE ELSE @,
                  \* C13: adopt boots/time on every accepted message, engine id once
                  !.boots = IF s.ver = "v3" THEN r.a.usm.boots ELSE @,
                  !.time = IF s.ver = "v3" THEN r.a.usm.time ELSE @,
